@@ -126,20 +126,35 @@ def keyLe (a b : String) : Bool :=
 /-- order in which `merge_files` visits the part files (`list.sort` is stable) -/
 def mergeOrder (names : List String) : List String := isort keyLe names
 
-/-- number of leading lines that start with `#` -/
+/-- number of leading lines that start with `#`: the header test BY CONTENT of the tree before the repair
+    (`while f.readline().startswith("#")`) -/
 def headerCount : List String → Nat
   | [] => 0
   | l :: ls => if l.startsWith "#" then headerCount ls + 1 else 0
 
-/-- `merge_files`: concatenate the existing parts in natural order; the header lines of part `i` are kept only
-    when `copy_header` and `i = 0` (index in the *sorted* list, also when that file does not exist) -/
-def mergeFiles (fs : String → Option (List String)) (names : List String) (copyHeader : Bool) : List String :=
+/-- `merge_files` of the tree BEFORE the repair `fix_merge_header`: every leading line of a part that starts with `#`
+    counted as a header line - also a record whose first field (read id, feature id, contig name) starts with `#` -/
+def mergeFilesOrig (fs : String → Option (List String)) (names : List String) (copyHeader : Bool) : List String :=
   let rec go : List String → Nat → List String
     | [], _ => []
     | n :: ns, i =>
       match fs n with
       | none => go ns (i + 1)
       | some ls => (if copyHeader && i == 0 then ls else ls.drop (headerCount ls)) ++ go ns (i + 1)
+  go (mergeOrder names) 0
+
+/-- `merge_files(file_name, label, chr_ids, handler, copy_header, header_lines)`: concatenate the existing parts in
+    natural order; the first `header_lines` lines of part `i` (the number of lines the WRITER of the parts puts before
+    the first record, given by the caller) are kept only when `copy_header` and `i = 0` (index in the *sorted* list,
+    also when that file does not exist); `f.readline()` at the end of a short file reads nothing (`List.drop`) -/
+def mergeFiles (fs : String → Option (List String)) (names : List String) (copyHeader : Bool) (headerLines : Nat) :
+    List String :=
+  let rec go : List String → Nat → List String
+    | [], _ => []
+    | n :: ns, i =>
+      match fs n with
+      | none => go ns (i + 1)
+      | some ls => (if copyHeader && i == 0 then ls else ls.drop headerLines) ++ go ns (i + 1)
   go (mergeOrder names) 0
 
 /-- `rreplace(fname, label, label_chr)` for a file name `pre ++ label ++ suf` whose last occurrence of the
